@@ -663,24 +663,24 @@ fn c18_attrs(_ctx: &Ctx, r: &mut Report) {
     let mut pa_cases: Vec<(String, String)> = vec![];
     for (g, d) in [("", "&impl Any"), ("<D: A>", "&D"), ("<D: A>", "D"), ("", "impl Any"), ("", "&App"), ("<'a, D>", "&'a D")] {
         for asy in ["", "async "] {
-            pa_cases.push(("Tr".into(), format!("{}fn f{}(#[a0] deps: {}, #[a1] x: i32, #[a2] (y, z): (i32, i32)) {{}}", asy, g, d)));
+            pa_cases.push(("Tr".into(), format!("{}fn f{}(#[a0] deps: {}, #[allow(unused_variables)] #[a1] x: i32, #[a2] #[expect(unused)] #[doc = \"p\"] (y, z): (i32, i32)) {{}}", asy, g, d)));
             if d != "&App" {
-                pa_cases.push(("Tr".into(), format!("mod m {{ pub fn g(deps: &impl Any) {{}} pub {}fn f{}(#[a0] deps: {}, #[a1] x: i32, #[a2] y: i32) {{}} }}", asy, g, d)));
+                pa_cases.push(("Tr".into(), format!("mod m {{ pub fn g(deps: &impl Any) {{}} pub {}fn f{}(#[a0] deps: {}, #[allow(unused_variables)] #[a1] x: i32, #[a2] #[expect(unused)] #[doc = \"p\"] y: i32) {{}} }}", asy, g, d)));
             }
             if d.starts_with('&') && d != "&App" {
                 for sel in ["", "ref"] {
-                    pa_cases.push((sel.into(), format!("impl TrImpl for X {{ {}fn f{}(#[a0] deps: {}, #[a1] x: i32, #[a2] y: i32) {{}} }}", asy, g, d)));
+                    pa_cases.push((sel.into(), format!("impl TrImpl for X {{ {}fn f{}(#[a0] deps: {}, #[allow(unused_variables)] #[a1] x: i32, #[a2] #[expect(unused)] #[doc = \"p\"] y: i32) {{}} }}", asy, g, d)));
                 }
             }
         }
     }
     for (attr, item) in [
-        ("Tr", "fn f(#[a0] deps: &impl Any, #[a1] x: i32, #[a2] y: i32, #[a3] z: i32) {}"),
-        ("Tr, no_deps", "fn f(#[a1] x: i32, #[a2] y: i32) {}"),
-        ("Tr", "mod m { pub fn f(#[a0] deps: &impl Any, #[a1] x: i32, #[a2] y: i32) {} pub fn g(#[b0] deps: &impl Any, #[b1] x: i32) {} }"),
-        ("", "impl TrImpl for X { fn f<D>(#[a0] deps: &D, #[a1] x: i32, #[a2] y: i32, #[a3] z: i32) {} }"),
-        ("ref", "impl TrImpl for X { fn f<D>(#[a0] deps: &D, #[a1] x: i32, #[a2] y: i32, #[a3] z: i32) {} }"),
-        ("dyn", "impl TrImpl for X { async fn f<D>(#[a0] deps: &D, #[a1] x: i32, #[a2] y: i32) {} }"),
+        ("Tr", "fn f(#[a0] deps: &impl Any, #[allow(unused_variables)] #[a1] x: i32, #[a2] #[expect(unused)] #[doc = \"p\"] y: i32, #[a3] z: i32) {}"),
+        ("Tr, no_deps", "fn f(#[allow(unused_variables)] #[a1] x: i32, #[a2] #[expect(unused)] #[doc = \"p\"] y: i32) {}"),
+        ("Tr", "mod m { pub fn f(#[a0] deps: &impl Any, #[allow(unused_variables)] #[a1] x: i32, #[a2] #[expect(unused)] #[doc = \"p\"] y: i32) {} pub fn g(#[b0] deps: &impl Any, #[b1] x: i32) {} }"),
+        ("", "impl TrImpl for X { fn f<D>(#[a0] deps: &D, #[allow(unused_variables)] #[a1] x: i32, #[a2] #[expect(unused)] #[doc = \"p\"] y: i32, #[a3] z: i32) {} }"),
+        ("ref", "impl TrImpl for X { fn f<D>(#[a0] deps: &D, #[allow(unused_variables)] #[a1] x: i32, #[a2] #[expect(unused)] #[doc = \"p\"] y: i32, #[a3] z: i32) {} }"),
+        ("dyn", "impl TrImpl for X { async fn f<D>(#[a0] deps: &D, #[allow(unused_variables)] #[a1] x: i32, #[a2] #[expect(unused)] #[doc = \"p\"] y: i32) {} }"),
     ]
     .iter()
     .map(|(a, i)| (a.to_string(), i.to_string()))
